@@ -7,7 +7,10 @@ from ..core import hx
 KEYS = ["", "a", "ab", "b", "B", "é", "a\0", "ａ", "z", "aa", "é́", "\U0001F600", "ab-c", "a b",
         "è", "größe", "grüße", "д", "ж", "日本", "日曜", "\U0001F601", "aé", "aè",
         # keys that differ only by a leading sigil / separator (a caller may well pass "$x"; it is a different key than "x")
-        "$", "$a", "$$a", "a$b", "-a", "a-", " a", "A"]
+        "$", "$a", "$$a", "a$b", "-a", "a-", " a", "A",
+        # keys that an index over a DIGEST of the name conflates: equal first eight bytes; equal 31-multiplier hashes
+        # (java-style: "Aa"/"BB"), equal length and equal byte sum
+        "emailCountNew", "emailCountOld", "emailCou", "emailCount", "Aa", "BB", "AaAa", "AaBB", "BBAa", "BBBB", "n1", "mP", "ad", "bc"]
 SIMPLE_VALS = ["s" + hx("x"), "s-", "o" + hx("y"), "o" + hx("é"), "c" + hx("cust"), "z", "i5", "i-7", "i0",
                "u255", "s" + hx("1.0"), "i123456789012"]
 NUM_VALS = ["t" + hx("1.50"), "t" + hx("-0"), "t" + hx("007"), "t" + hx("abc"), "t" + hx("1 "), "t" + hx("0.000"),
